@@ -214,7 +214,8 @@ def Node.inAll (n : Node) (a : Addr) : Bool := n.all.any (fun w => w.addr == a)
 /-- lazy_wrapper: the stored Peer (its UDPv4Address slot overwritten with the source address) or a fresh one -/
 def Node.senderRec (n : Node) (key : Nat) (src : Addr) : PeerRec × Node :=
   match n.findPeer key with
-  | some p => let p' := { p with v4 := src }; (p', n.setPeer p')
+  | some p =>
+    if Gen.refreshesAddress true then let p' := { p with v4 := src }; (p', n.setPeer p') else (p, n)
   | none => ({ key := key, v4 := src }, n)
 
 def addMissing (all : List Walk) : List Addr → List Walk
@@ -246,10 +247,10 @@ def setWalk (a : Addr) (w : Walk) : List Walk → List Walk
 /-- Network.discover_address(peer, a, service = s, new_style = ns) -/
 def Node.discover (n : Node) (p : PeerRec) (a : Addr) (ns : Bool) (s : Nat := 0) : Node :=
   let stale := match n.all.find? (fun w => w.addr == a) with
-    | none => true
-    | some w => match w.by_ with
-      | none => true
-      | some k => !n.knows k
+    | none => Gen.reparents false false
+    | some w => Gen.reparents true (match w.by_ with
+      | none => false          -- the empty introducer of snapshot / contact-only records is never a verified key
+      | some k => n.knows k)
   let n1 := if stale then { n with all := setWalk a ⟨a, some p.key, ns, some s⟩ n.all } else n
   if n.blacklist.contains a then n.addVerified p else n1.addVerified p
 
